@@ -116,8 +116,10 @@ func main() {
 
 		// judge one tampered header (header bytes replaced, payload kept)
 		judge := func(t *target, part, id string, newHdr []byte, desc string) {
-			if bytes.HasPrefix(newHdr, t.hdr) {
-				return // header unchanged (the edit only shifts the payload: that is C02's domain)
+			if bytes.HasPrefix(append(append([]byte{}, newHdr...), t.rest...), t.hdr) {
+				// the file still starts with the original header bytes (e.g. the final LF was deleted or doubled and the
+				// nonce happens to supply / absorb it): the header is unchanged, only the payload shifted: C02's domain
+				return
 			}
 			if c.Replaying() && !c.Want(id) {
 				return
